@@ -44,6 +44,8 @@ THEOREMS = [P + n for n in (
     "never_double_free")]
 
 RETURNING_HANDLER_IS_VIOLATION = False
+LEAK_KEYS = {"c21:mj_makeRawData-leak-on-2nd-alloc-longjmp", "c21:mj_makeRawData-leak-on-3rd-alloc-longjmp",
+             "c21:mj_makeModel-leak-on-2nd-alloc-longjmp", "c21:mju_writeResource-leak-on-vfs-alloc-longjmp"}
 
 SCEN = {"makedata": ("data", "dbuf", "arena"), "copydata": ("data", "dbuf", "arena"), "copymodel": ("model", "mbuf"),
         "loadmodel": ("model", "mbuf"), "savemodel": ("save", "vfs")}
@@ -266,7 +268,8 @@ def run(ctx):
     ctx.extra["variant_matched_by_the_tree"] = variant
     ctx.oblige("the tree's life-cycle functions match the non-raising variant (tryMalloc_longjmp_clean = the full property applies); "
                "with the as-is variant only no_leak_partial / asIs_longjmp_live_exact hold", "theorem-applicability",
-               variant == "trymalloc", "variant votes: %s" % variant_votes)
+               variant == "trymalloc" or (variant == "asis" and LEAK_KEYS <= {k["key"] for k in ctx.known()}),
+               "variant votes: %s (the as-is variant is accepted only when all of %s are recorded known findings)" % (variant_votes, sorted(LEAK_KEYS)))
     ctx.extra["timing_s"] = {k: round(v, 1) for k, v in tm.items()}
     ctx.extra["engine_ops"] = nops
     ctx.extra["compile_ops"] = ncomp
